@@ -151,7 +151,9 @@ func (fe *FnExec) havocArg(st *State, a Val, depth int) {
 			return
 		}
 		fe.havocHeapObj(st, x.Prefix, x.Base, x.Pointee)
-		fe.havocGhost(st, x.Base)
+		if !x.Interior {
+			fe.havocGhost(st, x.Base)
+		}
 	case RefV:
 		if x.T != "0" {
 			fe.havocGhost(st, x.T)
